@@ -89,7 +89,7 @@ def validate_spec(r, what=("unpack", "labels")):
             if "labels" in o and "labels" in what and (v != "2.7" or c["noext"]):
                 lits.append(f"(obs_spec_labels {ref} {C.blist(c['code'])}, {C.zlist(o['labels'])})")
         bad, errs = C.coq_cases(r.wd, "specdis" + v.replace(".", ""), HEADER, "list Z * list Z", "fun c => zlist_eqb (fst c) (snd c)", lits, chunk=300)
-        if errs or bad:
+        if C.spec_problem(r, errs, bad):
             print(f"MACHINERY-ERROR: Spec/Dis.v disagrees with CPython {v}'s dis:", errs[:1], [lits[b][:400] for b in bad[:3]])
             raise SystemExit(2)
         total += len(lits)
